@@ -28,6 +28,9 @@
      speak about                                                      -> standard_wiring
    * "trained": the data of the latest train() alone, whatever the same object was trained on and
      asked before                                                     -> retrain_current_data
+   * "every trained ... pipeline", several of them alive in one process (built and trained in any interleaving,
+     on different data): an object answers from ITS OWN latest train(), whatever other objects were built,
+     trained or asked before and after                                -> objects_independent
    Hypotheses: the item vocabulary has no repeated identifier (C01's bijection) and a supplied
    candidate list is duplicate-free (the quantifier of the property: "supplied lists of distinct
    items").  A configured length of 0 is outside the claim; the generated resolution treats it as
@@ -156,6 +159,20 @@ Theorem retrain_current_data : forall (sc : scorer) (fb : option scorer) pre ds 
 Proof. exact retrain_current_data_l. Qed.
 Print Assumptions retrain_current_data.
 
+(* Several pipeline objects in one process (`w`: which object each event happened to).  After object k's train(ds),
+   whatever happened before (`pre`: any objects, any events) and whatever happens afterwards to OTHER objects
+   (`post`: no further train() of k itself): every answer of k is that of a pipeline that has only ever seen `ds`.
+   In the model this holds by construction (`own`: an object's state is a function of its own events -- no component
+   instance is shared between objects); the point is that the correspondence cases are evaluated against
+   `own 0 <process history>` and the implementation has to agree. *)
+Theorem objects_independent : forall (sc : scorer) (fb : option scorer) k pre ds post i supplied config_n run_n,
+  existsb (trains k) post = false ->
+  after_in k (pre ++ (k, Train ds) :: post) = Some ds /\
+  rec_in sc k (pre ++ (k, Train ds) :: post) i supplied config_n run_n = Some (rec_pipeline sc ds i supplied config_n run_n) /\
+  pred_in sc fb k (pre ++ (k, Train ds) :: post) i supplied = Some (pred_pipeline sc fb ds i supplied).
+Proof. exact objects_independent_l. Qed.
+Print Assumptions objects_independent.
+
 (* non-vacuity: a vocabulary of five items, a user who has seen two of them, a scorer with a tie and
    a missing score, configured length 10 overridden by a run-time length of 2 *)
 Example c03_nonvacuous :
@@ -178,6 +195,10 @@ Example c03_nonvacuous :
   (* the same object trained earlier on data in which user 1 had seen everything: the latest train() decides *)
   (let old := {| ds_items := [10; 11; 12; 13; 14]; ds_rows := [(1, [(10, None); (11, None); (12, None); (13, None); (14, None)])] |} in
    rec_after sc [Train old; Ask (QId 1) None; Train ds; Ask (QId 2) None] (QId 1) None (Some 10) (Some 2)
+     = Some (Ok ([(11, Some (1 # 2)%Q); (14, Some (1 # 2)%Q)], true))) /\
+  (* a second pipeline object trained afterwards on a smaller catalogue does not change what the first one answers *)
+  (let small := {| ds_items := [10; 12]; ds_rows := [(1, [])] |} in
+   rec_in sc 0 [(1%nat, Train small); (0%nat, Train ds); (1%nat, Train small); (1%nat, Ask (QId 1) None)] (QId 1) None (Some 10) (Some 2)
      = Some (Ok ([(11, Some (1 # 2)%Q); (14, Some (1 # 2)%Q)], true))) /\
   (* the generated wiring, run node by node *)
   run_default {| e_sc := sc; e_fb := None; e_ds := ds; e_in := QId 1; e_items := None; e_cfg := Some 10; e_n := Some 2 |}
